@@ -55,7 +55,8 @@ GInit == [ acc |-> <<>>,      \* <<src,dst>> -> highest accepted request index
            grp |-> <<>>,      \* gid -> [state, kids : id -> status, count, exp, src]
            kid |-> <<>>,      \* child id -> gid
            failedOnce |-> {}, \* groups in which a child failed or which timed out
-           batchPairs |-> {} ]\* pairs whose destination is an unordered ("batch") service
+           batchPairs |-> {}, \* pairs whose destination is an unordered ("batch") service
+           hub |-> {} ]       \* pairs whose destination is a service of this hub itself (executed by the hub's own broker)
 
 \* the environment of a block: service statuses, block height, unordered services
 \* a service whose freeze is only proposed ("freezing") is still available
@@ -155,6 +156,7 @@ Expiry(h, T) == IF T > 0 THEN h + T ELSE 0
 AcceptReq(g, env, t, bf) ==
   [g EXCEPT !.acc = Put(@, <<t.src, t.dst>>, IF IsBatchDst(env, t) THEN Get(@, <<t.src, t.dst>>, 0) + 1 ELSE t.idx),
             !.st  = Put(@, t.id, IF bf THEN "BEGIN_FAILURE" ELSE "BEGIN"),
+            !.hub = IF t.dstChain = env.bxh THEN @ \cup {<<t.src, t.dst>>} ELSE @,
             !.exp = IF ~bf /\ Expiry(env.h, t.T) > 0 /\ t.dstChain # env.bxh /\ ~IsBatchDst(env, t) THEN Put(@, t.id, Expiry(env.h, t.T)) ELSE Drop(@, t.id),
             !.bexp = IF ~bf /\ Expiry(env.h, t.T) > 0 /\ IsBatchDst(env, t) THEN Put(@, t.id, Expiry(env.h, t.T)) ELSE Drop(@, t.id)]
 
